@@ -36,6 +36,7 @@ RULE_TEXT = (
     'bookkeeping write) / wipe+mark of a recorded label. Non-trivial = at '
     'least two runs executed evolution SQL or one faulted run fired; '
     'distinct = digest of the script shape.')
+RULE_TEXT += ' Further script steps: wipe without re-marking; a final evolve --purge that drops one app while the other has pending evolutions; mark-evolution-applied --all.'
 ASSUMPTIONS = [
     '"executed" = write statements inside an applying_evolution bracket of '
     'a run that completed; a failed run is rolled back (C07) and may '
